@@ -135,6 +135,33 @@ def case(job):
                     clause = "wrong-cell/%s%s" % (kind, "/shifted-longitude" if sh else "")
                     bad(clause, "lon=%.12f lat=%.12f (shift %d turns) sampled cell %r, layout says %r" % (lon[k], lat[k], sh, got, sorted(accept[k])), {"lon": float(lon[k]), "lat": float(lat[k]), "lon_shift_turns": sh})
                     break
+    # request patterns a cache or an in-place shortcut would get wrong: two requests of one shape with the
+    # same first and last point but different interior; read-only inputs; inputs must come back unchanged
+    if npts >= 4:
+        n2 = min(npts, 12)
+        base_idx = np.arange(n2)
+        perm = np.concatenate([[0], base_idx[1:-1][::-1], [n2 - 1]])
+        for idx in (base_idx, perm):
+            qlon = np.array(lon[idx]).reshape(1, n2)
+            qlat = np.array(lat[idx]).reshape(1, n2)
+            keep_lon, keep_lat = qlon.copy(), qlat.copy()
+            qlon.setflags(write=False)
+            qlat.setflags(write=False)
+            part.case(nontrivial=True, n=n2)
+            try:
+                out = np.asarray(sampler(qlon, qlat))
+            except Exception as e:
+                bad("raises-on-read-only-request:%s" % type(e).__name__, repr(e))
+                break
+            if not (np.array_equal(qlon, keep_lon) and np.array_equal(qlat, keep_lat)):
+                bad("request-arrays-modified", "the sampler changed the caller's coordinate arrays")
+                break
+            flat = out.reshape((n2, 3)) if rgb else out.reshape(n2)
+            cell = (flat[:, 0].astype(int) + 251 * flat[:, 1].astype(int)) if rgb else flat.astype(int)
+            wrong = [int(k) for q, k in enumerate(idx) if (int(cell[q]) // nx, int(cell[q]) % nx) not in accept[k]]
+            if wrong:
+                bad("wrong-cell/second-request-same-endpoints", "a request with the same shape and end points as the previous one but different interior points got %d wrong cells" % len(wrong))
+                break
     part.sample(cfg)
     return part
 
